@@ -16,7 +16,10 @@ UNITS = {
              'definition.components = Some(components);', ['C14.components.frame']),
             ('paths_not_replaced', 'definition.paths = paths;', '', ['C14.paths']),
             ('cli_base_not_applied', 'builder = builder.with_base(base);', '', ['C14.cli']),
-            ('cli_writes_default_document', 'let api = builder.into_openapi();', 'let api = oal_openapi::Builder::new(proc.eval(&mods)?).into_openapi();', ['C14.cli']),
+            ('cli_exit_codes_swapped', 'ExitCode::FAILURE } else { ExitCode::SUCCESS }', 'ExitCode::SUCCESS } else { ExitCode::FAILURE }', ['C13.cli.main']),
+        ('cli_write_error_ignored', 'fs_write_file(&target, api_yaml, fslog)?;', 'let _ = fs_write_file(&target, api_yaml, fslog);', ['C13.cli.run']),
+        ('cli_writes_before_serialising', 'let api_yaml = serde_yaml::to_string(&api)?;', 'fs_write_file(&target, String::new(), fslog)?; let api_yaml = serde_yaml::to_string(&api)?;', ['C13.cli.run']),
+        ('cli_writes_default_document', 'let api = builder.into_openapi();', 'let api = oal_openapi::Builder::new(proc.eval(&mods)?).into_openapi();', ['C14.cli']),
         ],
     },
 }
@@ -110,6 +113,18 @@ UNITS['c08'] = {
     ],
 }
 
+UNITS['c17'] = {
+    'template': 'contracts/c17.vrs',
+    'mutants': [
+        ('refs_report_every_variable', 'if definition == core_ref_of(var.node()).definition().unwrap() {', 'if true {', ['C17.find_references']),
+        ('refs_report_the_variable_node', 'node_location(workspace, var.identifier().node())?', 'node_location(workspace, var.node())?', ['C17.find_references']),
+        ('definition_of_declaration_is_its_parent', 'Some(Definition::External(External::new(decl.node())))', 'Some(Definition::External(External::new(parent)))', ['C17.find_definition']),
+        ('definition_grandparent_off_by_one', 'ident.node().ancestors().nth(1).unwrap()', 'ident.node().ancestors().nth(2).unwrap()', ['C17.find_definition']),
+        ('goto_returns_the_use', 'let definition = ext.node(folder.modules().unwrap());', 'let definition = v.node();', ['C17.go_to_definition']),
+        ('location_uses_start_only', 'let range = utf8_range_to_position(&text, span.range());', 'let range = utf8_range_to_position(&text, span.range().start..span.range().start);', ['C17.node_location']),
+    ],
+}
+
 UNITS['c10'] = {
     'template': 'contracts/c10.vrs',
     'mutants': [
@@ -172,6 +187,11 @@ UNITS['c01'] = {
         ('rec_component_not_registered', 'ctx.refs.insert(ident.clone(), Some(clone_value(&rhs)));', '', ['C09.eval.recursion.is_reference_to_registered_component']),
         ('rec_name_ignores_scope', 'node_identifier(ctx, rec.node(), true)', 'node_identifier(ctx, rec.node(), false)', ['C09.eval.recursion']),
         ('scope_id_not_advanced', 'self.scope_id_seq += 1;', '', ['C09.eval.push_scope.fresh_scope_id']),
+        ('decl_always_reevaluated', 'if !ctx.refs.contains_key(&ident) {', 'if true {', ['C09.eval.declaration']),
+        ('decl_component_not_registered', 'ctx.refs.insert(ident.clone(), Some(clone_value(&value)));', '', ['C09.eval.declaration']),
+        ('decl_recursion_point_named_by_plain_ident', 'None => Expr::Recursion(ident),', 'None => Expr::Recursion(decl.ident()),', ['C09.eval.declaration']),
+        ('name_uses_counter_not_innermost_scope', 'let scope_id = match self.scopes.last() { Some((id, _)) => *id, None => 0 };', 'let scope_id = self.scope_id_seq;', ['C09.eval.node_identifier']),
+        ('pop_gives_identifier_back', 'self.scopes.pop(); }', 'self.scopes.pop(); if self.scope_id_seq > 0 { self.scope_id_seq -= 1; } }', ['C09.eval.pop_scope']),
         ('variable_evaluates_the_use_not_the_binder', 'Definition::External(ext) => eval_any(ctx, ext.node(ctx.mods), ann),', 'Definition::External(ext) => eval_any(ctx, variable.node(), ann),', ['C08.eval.variable']),
     ],
 }
@@ -204,7 +224,7 @@ PROPS = {
                        'On the pinned tree four site obligations failed (headers, transfer domain, resource relation, relation uri; plus concat by the same pattern), each confirmed with the real CLI and repaired by fix commit 070d7db. '
                        'The unresolved-variable family (imported generic function) remains as known finding C01.site.var.',
         'assumptions': ['preservation at eval_any (inhabits)', 'compiled(): every evaluated node was type-checked (glue not verified)', 'resolved(): no residual type variable (known finding when violated)', 'refs_are_schemas (evaluator invariant)'],
-        'not_decided': ['preservation (that the inferred tag describes the evaluated value)', 'termination of evaluation / stack depth', 'eval_application, eval_declaration, eval_variable, eval_binding, eval_recursion, eval_literal, eval_any dispatcher panics', 'emitter unreachable!/expect sites (oal-openapi)', 'loader/ModuleSet unwraps'],
+        'not_decided': ['preservation (that the inferred tag describes the evaluated value)', 'termination of evaluation / stack depth', 'eval_literal (token value / literal kind agreement), eval_primitive, the `eval` entry point; eval_application / eval_variable / eval_binding / eval_declaration / eval_recursion and the eval_any dispatcher are under contract since 12.8-12.12, their panics being excluded relative to stated preconditions (definition slots set by the resolver, the applied identifier has a function tag, the binder\'s frame is on the stack, the node kind is one of the 19 evaluable kinds)', 'emitter unreachable!/expect sites (oal-openapi)', 'loader/ModuleSet unwraps'],
     },
     'C03': {
         'units': ['c03'],
@@ -244,8 +264,8 @@ PROPS = {
              'why': 'stdlib::import is under an ASSUMED contract (declares the built-ins, unqualified, into the innermost scope); Verus rejects its array-of-Rc<dyn> body'},
             {'name': 'P8.core_define', 'kind': 'pinned_text', 'file': 'oal-compiler/src/tree.rs', 'path': [('impl', 'impl Core'), ('fn', 'define')],
              'why': 'rule R-ghost models `core_mut().define(d)` as "the definition slot of the node becomes d"'},
-            {'name': 'P1.dispatcher', 'kind': 'pinned_text', 'file': 'oal-compiler/src/eval.rs', 'path': [('fn', 'eval_any')],
-             'why': 'eval_any is assumed (not verified): its assumed frame "a successful evaluation leaves the scope stack as it found it" rests on the dispatched eval_* functions'},
+            _fn_text_scan('A8.eval_literal_ignores_context', 'oal-compiler/src/eval.rs', None, 'eval_literal', [r'_ctx\s*:\s*&mut\s+Context'], [r'_ctx(?!\s*:)']),
+            _fn_text_scan('A8.eval_primitive_ignores_context', 'oal-compiler/src/eval.rs', None, 'eval_primitive', [r'_ctx\s*:\s*&mut\s+Context'], [r'_ctx(?!\s*:)']),
         ],
         'technique': 'Verus contracts on the real scope stack (env.rs), the real resolver walk (resolve.rs) and the real evaluator scope functions (eval.rs): every use is set to the innermost open binder of its name, for all syntax trees; '
                      'the evaluator keeps a stack discipline under which a callee frame holds exactly the callee\'s parameters',
@@ -304,6 +324,30 @@ PROPS = {
         'not_decided': ['eval_declaration: a reference / recursive declaration is evaluated once and its recursion point becomes Expr::Recursion', 'emitter: Reference -> $ref + component (closedness is C03)', 'termination and finiteness of evaluation',
                         'two instantiations get different component names (needs collision-freeness of SHA-256 over (scope id, node))', 'recursion through imported modules (graph construction in resolve::Builder is opaque)'],
     },
+    'C17': {
+        'units': ['c17'],
+        'level': 'other',
+        'obligation_prefixes': ['C17.'],
+        'scans': [
+            {'name': 'P17.syntax_at', 'kind': 'pinned_text', 'file': 'oal-client/src/lsp/handlers.rs', 'path': [('fn', 'syntax_at')],
+             'why': 'syntax_at::<N> (generic iterator chain) is under an ASSUMED contract: first node of sort N in pre-order whose span contains the index'},
+            {'name': 'P17.find_folders', 'kind': 'pinned_text', 'file': 'oal-client/src/lsp/handlers.rs', 'path': [('fn', 'find_folders')],
+             'why': 'find_folders is under an ASSUMED contract: the folders whose module set contains the locator'},
+        ],
+        'technique': 'Verus contracts on the real LSP handlers node_location, find_definition, find_references, go_to_definition, references over a ghost syntax-tree shim whose definition slots are the ones written by the resolver (C08)',
+        'level_text': 'Deductive proof (Verus/Z3), for all folders, trees, cursor positions: find_definition returns the declaration whose name the cursor is on, or the definition slot of the variable it is on, else nothing; '
+                      'find_references returns exactly the identifier locations of the Variable nodes, over all modules of the folder in order, whose definition slot equals the given definition (lemmas: every reported use is bound to it, every bound use is reported); '
+                      'go_to_definition returns a location only for a variable under the cursor whose slot is an external definition, and it is the location of that binder node (in whichever module it lives), otherwise the empty list; '
+                      'references returns the empty list when the cursor designates nothing. With unit c08 (resolve Ok ==> the slot of every use is its innermost enclosing binder) this gives the mirror property for the static binding relation. '
+                      'Not decided: the composition with C08 is by reading, not by a machine-checked link between the two units (different shims of the same tree); rename/prepare_rename; that the folder was compiled from the current texts (C15); positions are converted by the functions proved in C16 (assumed here): level other.',
+        'level_note': 'ASSUMED: syntax_at and find_folders (pinned texts), parser node accessors as an opaque tree with ghost structure (spans, ancestors, pre-order descendants), `impl PartialEq for Definition` is structural, '
+                      'Workspace::read_file returns the current text and changes no text, unicode conversions as uninterpreted functions of (text, position) (proved in unit c16), every node has a span (unwrap sites), '
+                      'every Variable of a compiled folder has its slot set (resolve Ok; otherwise find_references would panic on unwrap — precondition). Rule R14 (for over filter_map).',
+        'design_ref': 'DESIGN.md section 12.11',
+        'explanation': 'Listed not applicable in the plan because it needs C08; once the resolver half of C08 was proved the handlers became ordinary function contracts over the same definition slots.',
+        'assumptions': ['definition slots are those written by resolve (unit c08)', 'syntax_at / find_folders contracts (pinned)', 'the folder\'s module set was compiled from the texts the workspace currently holds'],
+        'not_decided': ['machine-checked composition with C08 (two units, two shims of the tree)', 'rename / prepare_rename', 'references when several folders contain the document: the per-folder results are concatenated (only the empty case is specified)', 'internal (built-in) definitions: go-to-definition answers the empty list'],
+    },
     'C10': {
         'units': ['c10'],
         'level': 'proof',
@@ -324,16 +368,18 @@ PROPS = {
         'not_decided': ['which error kind is reported when several apply', 'Err-path: that the error names the offending import (E is an opaque From<Error>)'],
     },
     'C04': {
-        'units': ['lex', 'c07', 'c16'],
+        'units': ['lex', 'c07', 'c16', 'c08', 'c01'],
         'kani': [dict(_KANI_STATUS, obligation='C04.status.try_from.total')] + [dict(h, obligation=h['obligation'].replace('C11.', 'C04.')) for h in _KANI_CONV],
         'level': 'other',
         'obligation_prefixes': ['C04.', 'C07.occurs.terminates', 'C07.occurs.nopanic', 'C07.uf.terminates', 'C07.uf.nopanic', 'C07.unify.nopanic', 'C07.unify.keeps_forest', 'C07.unify.occurs_before_bind',
                                 'C07.equation.', 'C07.inference_set.', 'C16.p2u.no_overflow', 'C16.u2p.no_overflow',
+                                'C08.env.', 'C08.resolve.', 'C08.entry.', 'C08.external.', 'C09.cycles_check',
                                 'C16.p2u.body', 'C16.u2p.body', 'C16.range.body'],
         'technique': 'Verus totality contracts (no panic / overflow / out-of-bounds slice, termination) on the real lexer conversions, tokenize, occurs, union-find and position conversions; complete Kani proof for HttpStatus::try_from',
         'level_text': 'Function-level totality, for all inputs, of every front-end function within reach of the verifiers: tokenize and the four token-value conversions '
                       '(against lexical shapes derived mechanically from the real #[regex]/#[token] patterns), occurs, UnionFind, the LSP position conversions (Verus), '
-                      'HttpStatus::try_from over the full u64 domain incl. its unsafe block (Kani, complete). The parser, resolver, unify/reduce, evaluator and the server loops '
+                      'HttpStatus::try_from over the full u64 domain incl. its unsafe block (Kani, complete); since the C08/C09 work also the name resolver (env.rs, all of resolve.rs: no panic when the loader hands it a module set '
+                      'containing every joinable import, terminates) and typecheck::cycles_check (no panic, terminates). The parser, reduce/substitute, the evaluator and the server loops '
                       'are not within reach, so the property as a whole is not decided: level other.',
         'level_note': 'Trusted: the LOGOS contract (ranges tile the input on char boundaries; an Ok(kind) slice matches kind\'s pattern) with pattern consequences computed by tools/logos_shape.py; '
                       'std str slicing/len/parse::<u64>/chars().next() contracts (R-local rewrites to shim functions, logged); TokenList/interner shim. '
@@ -343,7 +389,7 @@ PROPS = {
                        'atom.rs HttpStatus::try_from (Kani complete), unify.rs occurs, union.rs UnionFind::{insert,reduce,reduce_mut,union,find}, unicode.rs conversions. '
                        'These are the functions of the statement\'s "number size or Unicode content" clause; the token-order clause (parser) is out of reach.',
         'assumptions': ['LOGOS contract', 'std string API contracts as stated in contracts/lex.vrs', 'texts below 2^30 characters for the position conversions'],
-        'not_decided': ['tokenizer+parser on arbitrary token sequences (parser out of reach)', 'single-file compile entry point, CLI, LSP load/evaluate cycle', 'stack depth under nesting <= 200', 'termination of union::reduce/substitute/resolve'],
+        'not_decided': ['tokenizer+parser on arbitrary token sequences (parser out of reach)', 'single-file compile entry point, CLI, LSP load/evaluate cycle', 'stack depth under nesting <= 200', 'termination of union::reduce/substitute'],
     },
     'C11': {
         'units': ['lex', 'tok'],
@@ -442,6 +488,24 @@ PROPS = {
         ],
         'not_decided': ['CharSpan::from beyond the Kani bound (it only calls utf8_to_char_index on both ends)'],
     },
+    'C13': {
+        'units': ['c14'],
+        'level': 'other',
+        'obligation_prefixes': ['C13.'],
+        'technique': 'Verus contracts on the real CLI entry point: oal-cli.rs `main` and `run`, with every write attempt of the process recorded in a ghost log',
+        'level_text': 'Deductive proof (Verus/Z3) over the real bodies of `run` and `main` (oal-cli.rs), for all configurations and all outcomes of the phases they call: '
+                      '`run` Ok ==> exactly one write was attempted, it succeeded, and it wrote a complete serialised document to the configured target; '
+                      '`run` Err ==> either no write was attempted at all (every error of loading, parsing, compiling, evaluating, reading the base or serialising comes before the only write), or the single write to the target is what failed; '
+                      '`main` exits with code 0 exactly when that one successful write happened, and with code 1 otherwise. '
+                      'The playground (oal-wasm) and language-server clauses, "prints a diagnostic located in the sources", and what a failing `std::fs::write` leaves on disk are not decided: level other.',
+        'level_note': 'ASSUMED (shims): Config::{new,main,target,base,is_quiet,verbosity}, Processor::{load,eval} (the compiler pipeline; its error paths all surface as Err before the write), DefaultFileSystem::open_file, serde_yaml::{from_reader,to_string}, '
+                      'stderrlog builder (`init` succeeds: it is called once), `fs_write_file` = DefaultFileSystem.write_file with the attempt pushed on the ghost log (rule R-ghost). eprintln!/error!/info!/debug! are dropped (rule R3): diagnostics are not modelled. '
+                      'Processor::load may itself read files but never writes (not verified: pinned text of cli/mod.rs would be needed; stated as assumption).',
+        'design_ref': 'DESIGN.md section 12.10',
+        'explanation': 'First sentence of the statement, CLI part. Listed not applicable in the plan because it speaks of process exit status and file-system effects; a ghost log of write attempts threaded through run/main turns both into postconditions.',
+        'assumptions': ['the only file-system write of the CLI is the DefaultFileSystem.write_file call in run (Processor::load/eval do not write)', 'stderrlog init succeeds', 'process exit status is the ExitCode returned by main'],
+        'not_decided': ['CLI and playground entry point agree (oal-wasm)', 'language server publishes a diagnostic exactly when they fail', 'a diagnostic located in the sources is printed', 'state of the target after a failing write (std::fs::write may truncate)'],
+    },
     'C14': {
         'units': ['c14'],
         'level': 'proof',
@@ -477,8 +541,6 @@ NOT_APPLICABLE = {
     'C05': 'hyperproperty relating the outputs of two programs (before/after a rewrite); a contract speaks about one call, and a product encoding would need the whole pipeline inside the verifier',
     'C06': 'byte-identical output is functional determinism of the whole path source -> YAML including serde_yaml and HashMap iteration order; a data-flow discipline, not a contract on a function',
     'C12': 'every parser production is a closure combinator over &mut Context (rejected by Verus: closures capturing a mutable reference); Kani on parse_program with three symbolic tokens did not finish in 30 min; the linear bound needs ghost accounting through that same code',
-    'C13': 'exit status, stderr and "target file untouched" are effects of a process over the file system reached through &self unit structs; agreement of three front ends is relational',
-    'C17': 'defined against the binding relation (C08, not available) for every cursor position, answered by the running server',
     'C18': 'rename correctness is alpha-equivalence of two whole programs (C05 shape) and depends on the resolver invariant (C08)',
 }
 
@@ -509,7 +571,7 @@ def run_scan(sc):
         src = open(path).read()
         kind = rs.code_mask(src)
         try:
-            it = rs.find_item(src, kind, [('impl', sc['impl']), ('fn', sc['fn'])])
+            it = rs.find_item(src, kind, ([('impl', sc['impl'])] if sc.get('impl') else []) + [('fn', sc['fn'])])
         except rs.ScanError as e:
             return False, 'scan %s: lost anchor %s' % (sc['name'], e)
         text = ''.join(ch if kind[it.sig_start + i] != 'k' else ' ' for i, ch in enumerate(src[it.sig_start:it.end]))
